@@ -466,6 +466,37 @@ def f_fan():
         yield f"fan:{label}:p{pi}:r{i}r{j}", comp("Fan", sigs, blocks=blocks)
 
 
+# ----------------------------------------------------------------- F-vidx (block-driven index signals)
+
+def f_vidx():
+  """A reader block indexes a list with signals that OTHER blocks drive; the indexed subscript is the outermost node, or is followed
+  by a field, a second (signal) index, or a slice. The reader stands first in the source."""
+  base = [("in_", "in", B(4), ()), ("lst", "wire", Sab, (2,)), ("arr", "wire", B(4), (2, 2)), ("vec", "wire", B(4), (2,)),
+          ("idx", "wire", B(1), ()), ("jdx", "wire", B(1), ()), ("out", "out", B(4), ())]
+  # the tables hold distinct values derived from the input, so that a wrong index is visible
+  wd = ("wr_data", "comb", [("=", ref("lst", ("i", k)), ("st", "Sab", c(2, 1 + k), ("bin", "+", ref("in_", ("s", 2, 4)), c(2, k)))) for k in range(2)] +
+                           [("=", ref("arr", ("i", a), ("i", b)), ("bin", "^", ref("in_"), c(4, 1 + 5 * a + 3 * b))) for a in range(2) for b in range(2)] +
+                           [("=", ref("vec", ("i", k)), ("bin", "+", ref("in_"), c(4, 2 + 9 * k))) for k in range(2)])
+  wi = ("wr_idx", "comb", [("=", ref("idx"), ref("in_", ("s", 0, 1)))])
+  wj = ("wr_jdx", "comb", [("=", ref("jdx"), ("un", "~", ref("in_", ("s", 1, 2))))])
+  I, J = ("v", ref("idx")), ("v", ref("jdx"))
+  readers = [
+    ("plain", [("=", ref("out"), ref("vec", I))]),
+    ("field", [("=", ref("out"), ("call", "concat", ref("lst", I, ("f", "a")), ref("lst", J, ("f", "b"))))]),
+    ("inner", [("=", ref("out"), ref("arr", I, J))]),
+    ("inner-const-outer", [("=", ref("out"), ref("arr", ("i", 1), J))]),
+    ("slice", [("=", ref("out"), ("call", "concat", ref("arr", I, ("i", 1), ("s", 1, 3)), ref("vec", J, ("s", 0, 2))))]),
+    ("bit", [("=", ref("out"), ("call", "zext", ref("vec", I, ("b", 2)), ("n", 4)))]),
+  ]
+  for label, stmts in readers:
+    yield f"vidx:{label}", comp("Vidx", base, blocks=[("rd", "comb", stmts), wj, wi, wd])
+    # the same with the index produced by a two-block chain (idx <- mid <- in_)
+    base2 = base + [("mid", "wire", B(1), ())]
+    wm = ("wr_mid", "comb", [("=", ref("mid"), ref("in_", ("s", 0, 1)))])
+    wi2 = ("wr_idx", "comb", [("=", ref("idx"), ("un", "~", ref("mid")))])
+    yield f"vidx:{label}:chain", comp("Vidx2", base2, blocks=[("rd", "comb", stmts), wi2, wd, wj, wm])
+
+
 # ----------------------------------------------------------------- F-cyc (cyclic block graphs, used by C11)
 
 def f_cyc():
@@ -578,7 +609,7 @@ def _cyc_fill(label, sg):
   return []
 
 
-FAMILIES = {"ffx": f_ffx, "fan": f_fan, "chain": f_chain, "reg": f_reg, "diamond": f_diamond, "net": f_net, "hier": f_hier}
+FAMILIES = {"ffx": f_ffx, "fan": f_fan, "vidx": f_vidx, "chain": f_chain, "reg": f_reg, "diamond": f_diamond, "net": f_net, "hier": f_hier}
 
 
 def all_designs(families=None):
